@@ -1,6 +1,7 @@
 """C03 — client-level check (monitors on the real client through H-client; Lean obligations from Props/C03.lean)."""
 from vlib import *
 import client_check as CC
+from props import c17 as C17
 
 
 def run(ctx):
@@ -11,6 +12,19 @@ def run(ctx):
                        "cancellation signals), a broker (acks with reason codes/properties, inbound QoS 0/1/2 messages, held-back replies), byte chunking, connection loss with partial delivery, "
                        "reconnects with changing Receive Maximum / Server Keep Alive / Session Present, virtual time, then a fault-free suffix and cancel() or async_disconnect; "
                        "the C03 monitor runs on every transcript; non-trivial = distinct scenario with >= 2 (re)connections and > 3 operations")
+    # set_dup() correspondence: stored PUBLISH packets with DUP set by the real control_packet vs the encoder model
+    mdrv, _ = build_mdrv(); hb, hlog = build_harness("h_codec")
+    if hb and mdrv:
+        qs = []
+        while len(qs) < (400 if ctx.tier == "quick" else 20000):
+            l, e = C17.gen_packet(ctx.rng)
+            if e["type"] == "publish" and e["qos"] > 0: qs.append("dup" + l)
+        a, rc, err = run_lines(hb, qs); b, _, _ = run_lines(mdrv, qs)
+        mism = diff_outputs(qs, a, b)
+        ctx.count("set_dup-cases", len(qs)); ctx.cov["evaluations"] += len(qs)
+        if mism: ctx.ties_broken.append(f"correspondence:set_dup model differs from control_packet::set_dup on {len(mism)} packets, first: {str(mism[0])[:400]}")
+    else:
+        ctx.ties_broken.append("harness:h_codec / mdrv unavailable: " + (hlog or "")[-300:])
     found = CC.report(ctx, "C03", fails)
     report_broken_ties(ctx, found)
     if ctx.tier == "thorough" and not ctx.ties_broken:
